@@ -153,13 +153,31 @@ def run(ctx):
     # ---- run one case on the real code -------------------------------------------------------------------------
     def build(c):
         x1, y1, x2, y2 = c["rect"]
-        if c["via"] == "ctor":
+        w = c.get("warm")
+        if w:
+            # an Area object with a previous life: same map, same pattern configuration, ANOTHER rectangle; every
+            # observer is consumed once, then only the rectangle is changed (select / direct assignment / on a copy())
+            a = Area(map_size=c["size"], x1=w[0], y1=w[1], x2=w[2], y2=w[3])
+        elif c["via"] == "ctor":
             a = Area(map_size=c["size"], x1=x1, y1=y1, x2=x2, y2=y2)
         elif c["via"] == "select":
             a = Area(map_size=c["size"]).select(x1, y1, x2, y2)
         else:
             a = Area(map_size=c["size"])
             a.x1, a.y1, a.x2, a.y2 = x1, y1, x2, y2
+        configure(a, c)
+        if w:
+            for f in (a.to_coords, a.to_chunks, lambda: a.is_within_selection(0, 0)):
+                common.outcome(f)
+            if w[4] == "copy":
+                a = a.copy()
+            if c["via"] == "set":
+                a.x1, a.y1, a.x2, a.y2 = x1, y1, x2, y2
+            else:
+                a.select(x1, y1, x2, y2)
+        return a
+
+    def configure(a, c):
         st = c["st"]
         axis = {"x": "x", "y": "y", "o": None}[c["ax"]]
         # every size through the documented per-axis attributes, then the state through its use_* function
@@ -348,7 +366,9 @@ def run(ctx):
                 if sel and (x2 - x1) != (y2 - y1):
                     tags.append("rect:non-square")
                 nontrivial = len(S) >= 2 and (clipped if c["st"] == "full" else 0 < len(S) < len(sel))
-        R.case(key=case_cmd(c) + ("f" if c["flip"] else ""), nontrivial=nontrivial, tags=tags,
+        if c.get("warm"):
+            tags.append("area-object:reused" + ("-copy" if c["warm"][4] == "copy" else ""))
+        R.case(key=case_cmd(c) + ("f" if c["flip"] else "") + (str(c["warm"]) if c.get("warm") else ""), nontrivial=nontrivial, tags=tags,
                sample={"case": case_cmd(c), "obs": obs[:300]} if nontrivial and R.evaluations % 97 == 0 else None)
         for sig, text in oracle(c, d):
             key = tuple(sorted(sig.items()))
@@ -412,7 +432,10 @@ def run(ctx):
                 if k >= 5 and j < 5:                       # thorough: each state at least once per rectangle
                     pool = by_state[STATES[j]]
                     cf = pool[(counter[0] * 7 + i) % len(pool)]
-                do({"size": n, "via": via_for(r, i + j), "rect": r, "flip": (i + j) % 2 == 1, **cf}, origin)
+                cc = {"size": n, "via": via_for(r, i + j), "rect": r, "flip": (i + j) % 2 == 1, **cf}
+                if (i + j) % 4 == 3 and cc["via"] != "ctor" and None not in r:
+                    cc["warm"] = (0, 0, (i * 7 + j) % n, (i * 3 + 1) % n, "copy" if i % 2 else "same")
+                do(cc, origin)
 
     def random_case(maxn, odd):
         n = rng.randint(1, maxn)
@@ -440,6 +463,12 @@ def run(ctx):
                 c[p] = rng.randint(1, 3 if small else max(3, n // 3))
         if c["st"] == "lines" and c["ax"] == "o" and not odd:
             c["ax"] = "x"
+        if not odd and None not in r and rng.random() < 0.3:
+            a_, b_ = sorted((rng.randint(0, n - 1), rng.randint(0, n - 1)))
+            c_, d_ = sorted((rng.randint(0, n - 1), rng.randint(0, n - 1)))
+            c["warm"] = (a_, c_, b_, d_, rng.choice(("same", "copy")))
+            if c["via"] == "ctor":
+                c["via"] = "select"
         return c
 
     CHOSEN = [(8, (0, 0, 7, 7)), (8, (1, 1, 6, 3)), (8, (-1, 2, 8, 4)), (8, (2, 0, 4, 7)), (7, (0, 1, 6, 2)),
